@@ -137,6 +137,9 @@ class Interp:
             return chr(a)
         if k == "errname":
             return self.err
+        if k == "typeerr":
+            # a run-time type error produced through an opaque parameter: not catchable, stops the program
+            raise BlocError("fatal", "ANY")
         raise ValueError(k)
 
     def call(self, name, args):
@@ -318,6 +321,7 @@ def rexpr(e):
     if k == "tab": return "tab(%s, %s)" % (rexpr(e[1]), rexpr(e[2]))
     if k == "chr": return "chr(%s)" % rexpr(e[1])
     if k == "errname": return "error@1"
+    if k == "typeerr": return 'tmul("x")'
     raise ValueError(k)
 
 
@@ -449,21 +453,32 @@ class Gen:
     def expr_of(self, ty, sc):
         return {"int": self.int_expr, "bool": self.bool_expr, "str": self.str_expr}[ty](sc)
 
+    def arg_of(self, ty, sc):
+        if ty == "tab":
+            return ("var", self.r.choice(sc["tabs"])) if sc["tabs"] else ("tab", ("int", 2), ("int", 1))
+        return self.expr_of(ty, sc)
+
     # ---- possibly raising / effectful head expressions (first position only) ---------------
     def raising_int(self, sc):
         r = self.r; k = r.random()
+        if self.focus == "errors" and self.in_func is None and r.random() < 0.12:
+            return ("typeerr",)
         if k < 0.45:
             return ("bin", r.choice(["/", "%"]), self.int_expr(sc, 1), r.choice([("int", 0), ("int", 2), self.int_expr(sc, 1), ("bin", "-", ("var", r.choice(sc["ints"])), ("var", r.choice(sc["ints"]))) if sc["ints"] else ("int", 0)]))
         if k < 0.7 and self.callable_funcs(sc, "int"):
             f = r.choice(self.callable_funcs(sc, "int"))
-            return ("call", f["name"], [self.expr_of(t, sc) for t in f["ptypes"]])
+            args = [self.arg_of(t, sc) for t in f["ptypes"]]
+            if args and f["ptypes"][0] == "int" and r.random() < 0.15:
+                # the evaluation of the (first) argument itself fails
+                args[0] = ("bin", "/", self.int_expr(sc, 1), r.choice([("int", 0), ("bin", "-", ("int", 2), ("int", 2))]))
+            return ("call", f["name"], args)
         if k < 0.85 and sc["tabs"]:
             return ("at", r.choice(sc["tabs"]), r.choice([("int", 0), ("int", 1), ("int", 2), ("int", 7), ("int", -1), self.int_expr(sc, 1)]))
         return ("strlen", ("chr", r.choice([("int", 65), ("int", 255), ("int", 256), ("int", -1), self.int_expr(sc, 1)])))
 
     def callable_funcs(self, sc, ret):
         # inside a function only functions declared earlier (or itself, guarded) are called
-        fs = [f for f in self.funcs if f["ret"] == ret]
+        fs = [f for f in self.funcs if f["ret"] == ret and f["name"] != "tmul"]
         if self.in_func is not None:
             fs = [f for f in fs if f["order"] < self.in_func["order"]]
         return fs
@@ -549,7 +564,7 @@ class Gen:
                 fs = self.callable_funcs(sc, "int")
                 if fs and r.random() < 0.5:
                     fn = r.choice(fs)
-                    return ("return", ("call", fn["name"], [self.expr_of(t, sc) for t in fn["ptypes"]]))
+                    return ("return", ("call", fn["name"], [self.arg_of(t, sc) for t in fn["ptypes"]]))
                 return ("return", r.choice([None, self.int_expr(sc, 1), self.raising_int(sc)]))
         if sc["tabs"] and r.random() < 0.4:
             free_t = [x for x in sc["tabs"] if x not in sc["locked"]]
@@ -560,7 +575,7 @@ class Gen:
         fs = self.callable_funcs(sc, "int")
         if fs and r.random() < 0.6:
             fn = r.choice(fs)
-            return ("do", ("call", fn["name"], [self.expr_of(t, sc) for t in fn["ptypes"]]))
+            return ("do", ("call", fn["name"], [self.arg_of(t, sc) for t in fn["ptypes"]]))
         return self.print_stmt(sc)
 
     def if_stmt(self, sc, depth, in_loop):
@@ -663,9 +678,15 @@ class Gen:
     def gen_function(self, order):
         r = self.r
         np_ = r.randint(0, 3)
-        ptypes = [r.choice(["int", "int", "bool", "str"]) for _ in range(np_)]
+        ptypes = [r.choice(["int", "int", "bool", "str", "tab"] if self.focus == "functions" else ["int", "int", "bool", "str"]) for _ in range(np_)]
         params = ["x%d" % i for i in range(np_)]
-        f = {"name": "fn%d" % order, "params": params, "ptypes": ptypes, "ret": "int", "order": order, "body": []}
+        name = "fn%d" % order
+        if self.focus == "functions" and self.funcs and r.random() < 0.3:
+            # overload of an earlier function: same name, another number of parameters
+            prev = r.choice(self.funcs)
+            if all(not (g["name"] == prev["name"] and len(g["params"]) == np_) for g in self.funcs):
+                name = prev["name"]
+        f = {"name": name, "params": params, "ptypes": ptypes, "ret": "int", "order": order, "body": []}
         pints = [p for p, t in zip(params, ptypes) if t == "int"]; pbools = [p for p, t in zip(params, ptypes) if t == "bool"]; pstrs = [p for p, t in zip(params, ptypes) if t == "str"]
         psc = {"ints": pints, "bools": pbools, "strs": pstrs, "tabs": [], "loopv": ["li", "lj"], "iters": [], "active": [], "locked": []}
         self.in_func = f
@@ -685,6 +706,18 @@ class Gen:
             body.append(("print", self.mk(), [("var", n) if t != "int" or r.random() < 0.5 else ("isnull", ("var", n)) for n, t in locs]))
         sc = {"ints": pints + [n for n, t in locs if t == "int"], "bools": pbools + [n for n, t in locs if t == "bool"], "strs": pstrs + [n for n, t in locs if t == "str"],
               "tabs": [], "loopv": ["li", "lj"], "iters": [], "active": [], "locked": []}
+        ptabs = [p for p, t in zip(params, ptypes) if t == "tab"]
+        if self.focus == "functions":
+            # the callee works on its own copies: names of the caller's variables are plain locals here, table parameters are copies
+            if r.random() < 0.6:
+                g = r.choice(["a", "b", "c"]); body.append(("assign", g, self.int_expr(psc, 1))); sc["ints"].append(g)
+            if r.random() < 0.3:
+                body.append(("assign", "s", ("str", "callee"))); sc["strs"].append("s")
+            for pt in ptabs:
+                body.append(("concat", pt, ("int", r.choice([7, 8]))))
+                if r.random() < 0.5:
+                    body.append(("print", self.mk(), [("count", pt)]))
+            sc["tabs"] = list(ptabs)
         body += self.body(sc, 1, r.randint(1, 4))
         body.append(("return", self.int_expr(sc)))
         f["body"] = body
@@ -696,6 +729,9 @@ class Gen:
         nf = self.nfuncs if self.nfuncs is not None else (r.randint(0, 2) if self.focus != "functions" else r.randint(1, 3))
         for i in range(nf):
             self.funcs.append(self.gen_function(i))
+        if self.focus == "errors":
+            # opaque parameter: the type error of tmul("x") is only found at run time and is not catchable
+            self.funcs.append({"name": "tmul", "params": ["z"], "ptypes": [None], "ret": "int", "order": 99, "body": [("return", ("bin", "*", ("var", "z"), ("int", 2)))]})
         sc = {"ints": list(self.INTS), "bools": list(self.BOOLS), "strs": list(self.STRS), "tabs": list(self.TABS), "loopv": list(self.LOOPV), "iters": list(self.ITERV), "active": [], "locked": []}
         init = [("assign", "a", ("int", r.choice([0, 1, 3]))), ("assign", "b", ("int", r.choice([2, -1, 5]))), ("assign", "c", ("int", 0)), ("assign", "d", ("null", "int()")),
                 ("assign", "p", ("bool", True)), ("assign", "q", ("null", "bool()")), ("assign", "s", ("str", "ab")), ("assign", "u", ("str", "")),
